@@ -163,6 +163,13 @@ func byName(decls map[ast.PredicateSym]ast.Decl) map[string]ast.Decl {
 
 // New creates a new analyzer based on declarations and extra predicates.
 func New(extraPredicates map[ast.PredicateSym]ast.Decl, decls []ast.Decl, boundsChecking BoundsCheckingMode) (*Analyzer, error) {
+	// Overridden synthetic declarations are removed below. Work on a copy, the map belongs to the caller
+	// (the interpreter passes its table of known predicates and must find it unchanged).
+	callerPredicates := extraPredicates
+	extraPredicates = make(map[ast.PredicateSym]ast.Decl, len(callerPredicates))
+	for sym, decl := range callerPredicates {
+		extraPredicates[sym] = decl
+	}
 	extraByName := byName(extraPredicates)
 	declMap := make(map[ast.PredicateSym]ast.Decl)
 	for _, decl := range decls {
